@@ -394,6 +394,9 @@ def check_irq(scn: Dict[str, Any], hist: Dict[str, Any], steps: Optional[List[Di
                     V("off_timer_runs", k, "woken from off by a timer", what="woke")
         # wake liveness: a status bit pending at two consecutive fault-free boundaries
         wake_bits = pre[O_ISR] & (0x08 if pw_pre == 2 else 0x0F)
+        if not (scn.get("kb") or {}).get("kb_irq", True):
+            wake_bits &= ~0x04      # keyboard interrupts switched off by the host: KEYI is not a wake-up source then
+                                    # (configuration semantics the property does not speak about; ON key and timers are)
         if pw_pre in (1, 2) and wake_bits and not st["ops"]:
             wake_run += 1
             if wake_run >= K_WAKE and pw_post in (1, 2):
